@@ -187,9 +187,22 @@ class AvalonHarness(Harness):
         if self.dc == "ones": return (self.m_addr, self.m_bc, self.m_be, self.m_wd)
         return self.last_driven(k, b)
 
+    def legal_choice(self, E, ch):
+        """A recorded choice list replayed on a *different* tree (after a repair, under a mutation) can ask for something that is
+        not in the menu of the state reached there; project it onto the menu so that the master and the memory stay legal.
+        On the tree the trace was found on this is the identity."""
+        g, (rb, serve) = ch
+        opts = self.may_present(E)
+        if g not in opts: g = opts[0]
+        cq = E[6][0]
+        el = self.resp.eligible(cq)
+        serve = tuple(i for i in serve if i in el)[:1]
+        if len(cq) >= self.resp.qmax: rb = 0
+        return g, (rb, serve)
+
     def drive(self, S, E, ch):
         k, b, hold, rd, rbeat, hgap, rs = E
-        g, rch = ch
+        g, rch = self.legal_choice(E, ch)
         I = list(self.base)
         addr, bc, be, wd = self.dont_care(k, b)
         if g:
@@ -213,6 +226,7 @@ class AvalonHarness(Harness):
 
     def observe(self, S, E, ch, I, O, S2):
         k, b, hold, rd, rbeat, hgap, rs = E
+        ch = self.legal_choice(E, ch)
         g, rch = ch
         cov = self.cov
         if not g and b > 0: hgap = 1
@@ -233,7 +247,6 @@ class AvalonHarness(Harness):
                 if v == (old >> (8 * l)) & 0xff: continue
                 x = a * self.pb + l
                 if not (0 <= x < self.nbytes) or v not in self.legal[x]:
-                    w = x // self.ab - 0
                     self.report("avalon.write_misplaced", "memory byte 0x%x (Avalon word offset %d, lane %d) overwritten with 0x%02x = beat #%d lane %d; no beat of the scenario writes that value there"
                                 % (x, x // self.ab, x % self.ab, v, (v >> 2) & 0x1f, v & 3), kind="write_misplaced", in_window=0 <= x < self.nbytes)
                     break
@@ -272,9 +285,10 @@ class AvalonHarness(Harness):
             cov["quiescent_fixed_points"] = cov.get("quiescent_fixed_points", 0) + 1
             bad = self.memory_diff(rs2[1])
             if bad:
-                stale = all(got == self.ref_byte(r0, x) for (x, got, want) in bad for r0 in (self.ref_after[0],))
+                stale = all(got == self.ref_byte(self.ref_after[0], x) for (x, got, want) in bad)      # accepted beats that never reached memory
                 self.report("avalon.final_memory", "all accesses done and nothing outstanding, but memory != reference: " +
-                            ", ".join("byte 0x%x = %02x (expected %02x)" % t for t in bad[:6]), kind="final_memory", only_unwritten_bytes=stale)
+                            ", ".join("byte 0x%x = %02x (expected %02x)" % t for t in bad[:6]), kind="final_memory", only_unwritten_bytes=stale,
+                            bridge_fsm=self.fsm_names.get(self.r_fsm(S, I, O), "?") if self.r_fsm is not None else None)
         ev = 0
         el = self.resp.eligible(rs[0])
         coop = ch == (self.may_present(E)[0], (1 if len(rs[0]) < self.resp.qmax else 0, (el[0],) if el else ()))
@@ -340,6 +354,8 @@ SCEN = {
     "rb2-wb2-rb2":  [("R", 1, 2), ("W", 1, [3, F]), ("R", 1, 2)],
     "rb2-rb2":      [("R", 0, 2), ("R", 1, 2)],
     "wb2-w1-rb3":   [("W", 0, [F, F]), ("W", 2, [F]), ("R", 0, 3)],
+    "mix4":         [("W", 4, [F, F]), ("W", 5, [3, 12]), ("R", 4, 3), ("W", 4, [1])],
+    "mix5":         [("W", 0, [F]), ("R", 0, 2), ("W", 1, [12, F, 3]), ("R", 2, 1), ("R", 0, 4)],
     # narrow bus on a wide port: positions relative to the wide word matter (4 or 2 narrow words per wide word)
     "n-wb2-rb4":    [("W", 0, [F, F]), ("R", 0, 4)],          # write burst inside one wide word, read of the whole wide word
     "n-wb3x-r1":    [("W", 3, [F, F, F]), ("R", 4, 1)],       # write burst crossing a wide-word boundary
@@ -349,6 +365,11 @@ SCEN = {
     "n-wb4-rb4":    [("W", 4, [F, F, F, F]), ("R", 4, 4)],
     "n-w1-rb4":     [("W", 2, [F]), ("R", 0, 4)],
     "n-wb2-w1-r1":  [("W", 0, [F, F]), ("W", 1, [F]), ("R", 1, 1)],
+    # scenarios that end with a write: the data must reach memory without any further access (quiescence comparison)
+    "n-wb3x":       [("W", 3, [F, F, F])],                    # crossing a wide-word boundary
+    "n-wb2-lo":     [("W", 1, [F, F])],                       # inside wide word 0
+    "n-wb2-hi":     [("W", 5, [F, F])],                       # inside wide word 1 (8/32) / 2 (16/32)
+    "n-w1-w1":      [("W", 2, [F]), ("W", 1, [F])],           # descending single writes inside one wide word
 }
 
 
@@ -415,7 +436,12 @@ def configs(tier):
             add(R11, s, mbl=m, pipelined=True, dc="ones")
             add(R21, s, mbl=m, dc="zero"); add(R21, s, mbl=m, gaps=False, pipelined=True, base_address=0x80)
             add(R12, s, mbl=m, dc="same"); add(R14, s, mbl=m, dc="ones")
-        for s, m in (("n-wb2-rb4", 4), ("n-wb3x-r1", 3), ("n-rb2", 2), ("n-rb2x", 2), ("n-rb4", 4), ("n-wb4-rb4", 4), ("n-w1-rb4", 4), ("n-wb2-w1-r1", 2)):
+        for s, m in (("mix4", 3), ("mix5", 4)):
+            for r in (R11, R21, R12, R14):
+                add(r, s, mbl=m, gaps=False, ms=4_000_000); add(r, s, mbl=m, gaps=False, pipelined=True, raw="ordered", ms=4_000_000)
+            add(R11, s, mbl=m, dc="zero", ms=4_000_000); add(R21, s, mbl=m, dc="ones", base_address=0x40, ms=4_000_000)
+        for s, m in (("n-wb2-rb4", 4), ("n-wb3x-r1", 3), ("n-rb2", 2), ("n-rb2x", 2), ("n-rb4", 4), ("n-wb4-rb4", 4), ("n-w1-rb4", 4), ("n-wb2-w1-r1", 2),
+                     ("n-wb3x", 3), ("n-wb2-lo", 2), ("n-wb2-hi", 2), ("n-w1-w1", 2)):
             add(R14, s, mbl=m, gaps=False); add(R12, s, mbl=m, gaps=False)
             add(R14, s, mbl=m, gaps=False, pipelined=True, raw="ordered")
     return cs
